@@ -80,6 +80,7 @@ class CachinKursawePetzoldShoupRBC
 		mpz_t                                l_fail;
 		std::vector<RBC_TagCheck>            send, echo, ready;
 		std::vector<RBC_TagCheck>            request, answer;
+		RBC_TagCheck                         awaited;
 		std::vector<RBC_TagCheck>            retrieve, deliver;
 		RBC_VectorMap                        retrieve_buf;
 		RBC_TagMpz                           mbar, dbar;
